@@ -4,11 +4,23 @@ import json, os
 HERE = os.path.dirname(os.path.abspath(__file__))
 titles = {json.loads(l)['id']: json.loads(l)['title'] for l in open(os.path.join(HERE, 'properties.jsonl'))}
 
+TECH_A = 'bounded symbolic execution of the real MIR (nightly -Zunpretty=mir of the working tree) -> SMT-LIB Int -> cvc5/z3 portfolio; UNSAT of the negated property; SAT models replayed on the native build'
+TECH_B = 'Kani 0.68 / CBMC 6.11 proof harnesses over kani::any() inputs compiled into a scratch overlay of the working tree; unwinding assertions on; counterexamples decoded by concrete playback and replayed natively'
+NOTE_A = 'Trusted: rustc MIR of the pinned nightly, the MIR->SMT encoder (validated on every run against native dev+release builds), cvc5/z3, the listed models of core integer methods.'
+NOTE_B = 'Trusted: Kani/CBMC model of the compiled code (dev profile), the stubs listed in the evidence file (each with the query/harness that discharges its contract).'
 CLAIMED = {
-    'C16': dict(engine='A', technique='bounded symbolic execution of the real MIR -> SMT-LIB (Int) -> cvc5 (z3 second opinion); counterexamples replayed natively',
-                text='Solver verdict (UNSAT of the negated property) over ALL i128 nanosecond counts and all (i64,u32) pairs on the encoding of the real MIR of total_nanoseconds_to_timespec, nanoseconds_since_unix_epoch, the from_total_nanoseconds constructors and the total_nanoseconds getters; every overflow/cast/division site is an obligation. No bound beyond the machine types (no loops except the 12-iteration month loop inside from_timespec, unwinding obligation discharged).',
-                note='Trusted: rustc MIR of the pinned nightly, the MIR->SMT encoder (validated on every run against the native dev and release builds on random and boundary vectors), cvc5/z3, the floor model of i128::div_euclid/rem_euclid.',
-                ref='DESIGN.md section 4, C16'),
+    'C01': dict(engine='A', technique=TECH_A, ref='DESIGN.md section 4, C01', note=NOTE_A,
+                text='All 2^64 timestamps x 2^32 nanosecond values: from_timespec (month loop unrolled 12x, unwinding obligation discharged), week_day, year_day and the range gate are decided against the defining relation "fields valid and timegm(fields) = t"; every overflow/cast/index site is an obligation.'),
+    'C02': dict(engine='A', technique=TECH_A, ref='DESIGN.md section 4, C02', note=NOTE_A + ' Meta-step: induction over the year from the solver-checked recurrences.',
+                text='days_since_unix_epoch is pinned to the true day count by recurrences (epoch, year step, month step, day step, leap rule) each decided for every i32 year; acceptance <=> real date, error kinds, strict monotonicity over two fully symbolic tuples, second 60. No bound beyond the types.'),
+    'C04': dict(engine='A', technique=TECH_A + '; compositional (callee contracts discharged by separate queries)', ref='DESIGN.md section 4, C04', note=NOTE_A + ' Assume-guarantee: calendar kernel summarised by uninterpreted functions whose axioms are discharged on the real MIR in the same run.',
+                text='Three layers, all i32 years and all instants: rule days equal the notation (Jn, n, Mm.w.d with solver-chosen witness), contracts of the calendar kernel, and the real 12-leaf decision tree with the real rule-day arithmetic for all 9 notation pairs. One known finding (F2) is keyed by role and reported as KNOWN-FINDING.'),
+    'C11': dict(engine='A', technique=TECH_A + '; calendar abstraction with discharged contracts, case split on months', ref='DESIGN.md section 4, C11', note=NOTE_A,
+                text='For all 9 notation pairs: windows and error kinds; soundness (no accepted rule flips any of the three order relations between two symbolic years, all i32 years); completeness (refused as inconsistent => flips among the concrete witness years 2001..2029); unreachable!() and all arithmetic obligations.'),
+    'C12': dict(engine='B', technique=TECH_B, ref='DESIGN.md section 4, C12', note=NOTE_B,
+                text='Every leap table of <= 3 records accepted by the real constructor x every i64 instant/count: both conversions against a declarative "correction in force" specification, monotonicity, round trip, Galois connection with transition counts, public lookup switch instant.'),
+    'C16': dict(engine='A', technique=TECH_A, ref='DESIGN.md section 4, C16', note=NOTE_A + ' Floor model of i128::div_euclid/rem_euclid.',
+                text='All i128 nanosecond counts and all (i64,u32) pairs: split exact and floor-based, accepted <=> seconds fit i64, recombination exact, constructors from total nanoseconds equal the pair constructors, round trips, nanoseconds >= 1e9 refused.'),
 }
 NA = {
     'C10': 'oracle is glibc/CPython run on concrete IANA files: foreign code cannot be executed symbolically and comparing concrete runs is enumeration, not a solver verdict (DESIGN.md section 5)',
